@@ -111,15 +111,28 @@ func c08Scenario(kind int) {
 	if declared < 0 {
 		vsym.Assume(false)
 	}
+	// the same upload in the aws-chunked framing (one data chunk and the final
+	// chunk): the declared length and the digest are those of the payload.
+	// Truncated and damaged streams are C12's subject, so the reader does not
+	// fail here.
+	chunked := !lite && vsym.Choice("chunked", 2) == 1
 	failAt := -1
-	if vsym.Choice("fails", 2) == 1 {
+	if !chunked && vsym.Choice("fails", 2) == 1 {
 		failAt = vsym.Choice("failat", L+1)
 	}
 	frag := 1
 	if !lite {
 		frag = 1 + vsym.Choice("frag", 2)
 	}
-	rd := &failingBody{data: body, frag: frag, failAt: failAt, eofWith: vsym.Choice("eofwith", 2) == 1}
+	data := body
+	if chunked {
+		if L > 0 {
+			data = frameChunks([][]byte{body})
+		} else {
+			data = frameChunks(nil)
+		}
+	}
+	rd := &failingBody{data: data, frag: frag, failAt: failAt, eofWith: vsym.Choice("eofwith", 2) == 1}
 
 	hdr := http.Header{"Content-Type": {"new/type"}, "X-Amz-Meta-A": {"new"}}
 	md5kind := vsym.Choice("md5", 5)
@@ -145,12 +158,18 @@ func c08Scenario(kind int) {
 		}
 		digestOK = false
 	}
-	missingLength := !lite && vsym.Choice("nolength", 2) == 1
+	missingLength := !lite && !chunked && vsym.Choice("nolength", 2) == 1
 	if !missingLength {
 		hdr.Set("Content-Length", itoa(declared))
 	}
 	before := snapC08(h, key, uploadID)
 	rq := Req{Method: "PUT", Path: "/bkt/" + key, Header: hdr, Body: rd, Length: int64(declared)}
+	if chunked {
+		hdr.Set("X-Amz-Content-Sha256", "STREAMING-AWS4-HMAC-SHA256-PAYLOAD")
+		hdr.Set("X-Amz-Decoded-Content-Length", itoa(declared))
+		hdr.Set("Content-Length", itoa(len(data)))
+		rq.Length = int64(len(data))
+	}
 	if target == 1 {
 		// a new part number, or a second upload of the part that is already there
 		rq.Query = url.Values{"uploadId": {uploadID}, "partNumber": {itoa(1 + vsym.Choice("partnumber", 2))}}
